@@ -137,6 +137,10 @@ def verdicts(perms):
 
 
 def cli_out(fn, text):
+    if len(text) % 2:  # through the argument parser and the sub-command table
+        from ..cliutil import run_main
+
+        return run_main([{"has_poly_growth": "poly", "has_regular_insertion_encoding": "insenc"}[fn.__name__], text])[0]
     buf = io.StringIO()
     with contextlib.redirect_stdout(buf):
         fn(argparse.Namespace(basis=text))
